@@ -99,6 +99,19 @@ CHECKS = {
         technique="TLA+ library (Dremel) as the oracle in a TLC trace monitor + TLC-generated values + model of the run scanner",
         design_ref="DESIGN.md section 5 C03",
     ),
+    "C09": dict(
+        level="model_checking",
+        text="Merge.tla models the merge planner (row-group bounds from the first/last non-null page, overlap "
+             "segmentation, concatenation of single-row-group segments) and TLC checks for every sorting configuration "
+             "and small input set that the plan's output is sorted and complete. The same universe is realised as files "
+             "and buffers (rows scaled to blocks that reach the range refinement), merged through MergeRowGroups with "
+             "several batch sizes, written through WriteRowGroup and through MergeRowReaders; MergeMon.tla checks "
+             "sortedness, per-input order, completeness and the dedupe rule on every output.",
+        note="One optional int64 sorting column, keys over {null,1,2}, <=3 inputs; loser-tree and window internals are "
+             "covered by trace validation only.",
+        technique="TLA+ planner model (TLC exhaustive) + exhaustive/sampled replay of the universe on the code + TLC trace monitor",
+        design_ref="DESIGN.md section 5 C09",
+    ),
     "C13": dict(
         level="fault_enumeration",
         text="Corrupt.tla models which load routine brings a page into memory (readPage in the stream vs the lazy "
